@@ -98,13 +98,25 @@ class OsProxy(object):
         return real
 
 
+def _controlled():
+    s = sched.CUR
+    return s is not None and s.me() is not None
+
+
 class TimeProxy(object):
+    """virtual clock for threads run by the cooperative scheduler (a sleep is a scheduling point and advances the virtual
+    time); the real clock for everybody else (real threads and forked processes of the stress modes: with the virtual
+    clock a waiter would spin through its whole timeout in a fraction of a second)"""
+
     def time(self):
-        return STATE['vtime']
+        return STATE['vtime'] if _controlled() else _time.time()
 
     def sleep(self, dt):
-        STATE['vtime'] += dt
-        sched.point('sleep')
+        if _controlled():
+            STATE['vtime'] += dt
+            sched.point('sleep')
+        else:
+            _time.sleep(dt)
 
     def __getattr__(self, k):
         return getattr(_time, k)
